@@ -1449,8 +1449,9 @@ impl Linearizer {
         constraints: Vec<Constraint>,
         mut domain: IndexMap<String, DomainVariable>,
     ) -> Self {
-        let bounds = BoundsAnalyzer::analyze(&domain, &constraints);
+        let mut bounds = BoundsAnalyzer::analyze(&domain, &constraints);
         bounds.apply_to_domain(&mut domain);
+        bounds.restrict_to_domain(&domain);
         Self::new_from_with_bounds(constraints, domain, bounds)
     }
 
@@ -1557,8 +1558,9 @@ impl Linearizer {
             .into_iter()
             .map(Constraint::normalized)
             .collect::<Vec<_>>();
-        let bounds = BoundsAnalyzer::analyze(&domain, &constraints);
+        let mut bounds = BoundsAnalyzer::analyze(&domain, &constraints);
         bounds.apply_to_domain(&mut domain);
+        bounds.restrict_to_domain(&domain);
         let mut context = Linearizer::new_from_with_bounds(constraints, domain, bounds);
         let objective_type = objective.objective_type.clone();
         let objective_exp = objective.rhs.flatten().simplify();
